@@ -176,4 +176,33 @@ declared length `io.ReadFull` asks for exactly that many bytes and reports the s
 def fetchRd (dflt limit : Int) (failing : Bool) (s : Src) : Outcome :=
   if failing && decide (s.declared < 0) then fetchFailing dflt limit s.actual else fetch dflt limit s
 
+/-! ### Update histories of the HTTPServer spec (`mux.reload` between requests)
+
+`mux.reload` publishes an instance built from the **new** spec (new rule table, `spec: spec`); `serveHTTP` takes both
+limits from the instance it loaded: the path-level value of that table and `mi.spec.ClientMaxBodySize`. -/
+
+inductive MuxOp
+  | reload (pathL serverL : Int)   -- in-place update of the HTTPServer spec
+  | request (s : Src)
+deriving Repr, DecidableEq
+
+/-- The spec in force after a prefix of a history. -/
+def specAfter : Int × Int → List MuxOp → Int × Int
+  | cur, [] => cur
+  | _, .reload p s :: t => specAfter (p, s) t
+  | cur, .request _ :: t => specAfter cur t
+
+/-- What the mux does with each request of a history, starting from the spec `cur`. -/
+def muxHistory (dflt : Int) : Int × Int → List MuxOp → List Served
+  | _, [] => []
+  | _, .reload p s :: t => muxHistory dflt (p, s) t
+  | cur, .request x :: t => serve dflt cur.1 cur.2 x :: muxHistory dflt cur t
+
+/-- The seeded defect C07-m4, for the counterexample only: the effective limit is resolved into the rule table when
+the table is built (`table`), and a reload that leaves the rules alone (`rulesChanged = false`) keeps the table. -/
+def muxHistoryStale (dflt : Int) : Int → List (Bool × MuxOp) → List Served
+  | _, [] => []
+  | table, (rulesChanged, .reload p s) :: t => muxHistoryStale dflt (if rulesChanged then effLimit p s else table) t
+  | table, (_, .request x) :: t => serve dflt table 0 x :: muxHistoryStale dflt table t
+
 end EgVerif.Payload
